@@ -800,6 +800,10 @@ class DataFrameSchemaBackend(PandasSchemaBackend):
         )
         for lst in temp_unique:
             subset = [x for x in lst if x in check_obj]
+            if not subset:
+                # none of the columns is in the dataframe, e.g. optional
+                # columns that were not supplied
+                continue
             duplicates = check_obj.duplicated(  # type: ignore
                 subset=subset, keep=keep_setting  # type: ignore
             )
